@@ -390,6 +390,7 @@ class Node:
                 f"rejecting a new connection attempt from {conn.node_name}, "
                 f"because the node is shutting down")
             peer_socket.close()
+            conn.close(signal_node=False)
             return None
 
         with self._busy_lock:
@@ -399,6 +400,7 @@ class Node:
                     f"rejecting a new connection attempt from "
                     f"{conn.node_name}, as the peer is already connected")
                 peer_socket.close()
+                conn.close(signal_node=False)
                 return None
 
             conn.ident = self._generate_connection_id()
@@ -532,14 +534,16 @@ class Node:
             conn.state = PEER_CONNECTING
             conn.node_name = peer.node_name
             conn.origin_host = self.origin_host
-            self._add_peer_connection(conn, peer_socket, PEER_TRANSPORT_TCP)
+            if self._add_peer_connection(
+                    conn, peer_socket, PEER_TRANSPORT_TCP) is None:
+                return
 
             try:
                 peer_socket.connect((peer.ip_addresses[0],
                                      peer.port))
             except socket.error as e:
                 if e.args[0] != errno.EINPROGRESS:
-                    self.remove_peer_connection(
+                    self.close_connection_socket(
                         conn, DISCONNECT_REASON_SOCKET_FAIL)
                     return
                 self.logger.warning(f"{conn} socket not yet ready, waiting")
@@ -558,7 +562,9 @@ class Node:
             conn.state = PEER_CONNECTING
             conn.node_name = peer.node_name
             conn.origin_host = self.origin_host
-            self._add_peer_connection(conn, peer_socket, PEER_TRANSPORT_SCTP)
+            if self._add_peer_connection(
+                    conn, peer_socket, PEER_TRANSPORT_SCTP) is None:
+                return
 
             connect_addr = [(ip, peer.port)
                             for ip in peer.ip_addresses]
@@ -566,7 +572,7 @@ class Node:
                 peer_socket.connectx(connect_addr)
             except socket.error as e:
                 if e.args[0] != errno.EINPROGRESS:
-                    self.remove_peer_connection(
+                    self.close_connection_socket(
                         conn, DISCONNECT_REASON_SOCKET_FAIL)
                     return
                 self.logger.warning(f"{conn} socket not yet ready, waiting")
